@@ -8,7 +8,9 @@ package c08
 //	<rval>   (i N) (s xHEX) (u) (a <rval>*) (h (<rval> <rval>)*)
 //	         (d xNAME <rval>*)     types.NewDeferred(NAME, args...): `$var` digs args into the scope's variable, any other
 //	                               name is a function call (the harness registers `verif_list`: its arguments as an array)
-//	         (dt xNAME)            types.NewDeferredType(NAME), NAME ∈ typeNames
+//	         (dt xNAME <rval>*)    types.NewDeferredType(NAME, params...); in the model: NAME ∈ typeNames without parameters,
+//	                               Array / Optional / Type / NotUndef (one) and Tuple (one to three) over parameters that
+//	                               resolve to a type or raise; anything else: implementation-only op `resp`
 //	<scope>  (h ((s xHEX) <rval>)*)   string keys, pairwise different; hashes INSIDE a scope value have scalar keys
 //
 // Out = the answer of every resolution in order (`ok <walk>` | `reported <CODE>` | `fault`), then the walk of the value
@@ -109,27 +111,6 @@ func isRVal(e sx.Sexp) bool {
 	return false
 }
 
-// hasTypeParams: a DeferredType with parameters somewhere inside (resolved by the unexported resolveValue /
-// ResolveWithParams: outside the Lean model, op `resp`)
-func hasTypeParams(e sx.Sexp) bool {
-	if e.Tag() == "dt" && len(e.Args()) > 1 {
-		return true
-	}
-	for _, k := range e.Args() {
-		if k.IsList && hasTypeParams(k) {
-			return true
-		}
-		if k.IsList && k.Tag() == "" {
-			for _, kk := range k.List {
-				if hasTypeParams(kk) {
-					return true
-				}
-			}
-		}
-	}
-	return false
-}
-
 // inDomain: the names this op covers — variables, the function the harness registers, one unknown function, five type
 // names (any other Deferred name may be a real function of pcore, e.g. `new`)
 func inDomain(e sx.Sexp, implOnly bool) bool {
@@ -149,7 +130,7 @@ func inDomain(e sx.Sexp, implOnly bool) bool {
 		}
 	case "d":
 		nm := a[0].MustStr()
-		if !(strings.HasPrefix(nm, "$") || nm == "verif_list" || nm == "nofunc" || (implOnly && nm == "verif_first")) {
+		if !(strings.HasPrefix(nm, "$") || nm == "verif_list" || nm == "verif_first" || nm == "nofunc") {
 			return false
 		}
 		for _, k := range a[1:] {
@@ -158,7 +139,7 @@ func inDomain(e sx.Sexp, implOnly bool) bool {
 			}
 		}
 	case "dt":
-		if len(a) > 1 {
+		if len(a) > 1 && implOnly {
 			for _, k := range a[1:] {
 				if !inDomain(k, implOnly) {
 					return false
@@ -166,9 +147,57 @@ func inDomain(e sx.Sexp, implOnly bool) bool {
 			}
 			return paramTypeNames[a[0].MustStr()]
 		}
+		if len(a) > 1 {
+			// inside the model: the one-parameter wrappers and Tuple, over parameters that resolve to a TYPE or raise
+			nm := a[0].MustStr()
+			if !modelParamNames[nm] || (nm == "Tuple" && len(a)-1 > 3) || (nm != "Tuple" && len(a)-1 != 1) {
+				return false
+			}
+			for _, k := range a[1:] {
+				if !typeParam(k) {
+					return false
+				}
+			}
+			return true
+		}
 		return typeNames[a[0].MustStr()]
 	}
 	return true
+}
+
+var modelParamNames = map[string]bool{"Array": true, "Optional": true, "Type": true, "NotUndef": true, "Tuple": true}
+
+// typeParam: a parameter of a DeferredType that resolves to a TYPE or raises: a DeferredType, verif_first(<such>, …), a
+// variable (parameters are resolved in the EMPTY scope: UNKNOWN_VARIABLE), the unknown function
+func typeParam(e sx.Sexp) bool {
+	a := e.Args()
+	switch e.Tag() {
+	case "dt":
+		return inDomain(e, false)
+	case "d":
+		nm := a[0].MustStr()
+		if nm == "verif_first" {
+			if len(a) < 2 || !typeParam(a[1]) {
+				return false
+			}
+			for _, k := range a[2:] {
+				if !inDomain(k, false) {
+					return false
+				}
+			}
+			return true
+		}
+		if !(strings.HasPrefix(nm, "$") || nm == "nofunc") {
+			return false
+		}
+		for _, k := range a[1:] {
+			if !inDomain(k, false) {
+				return false
+			}
+		}
+		return true
+	}
+	return false
 }
 
 var paramTypeNames = map[string]bool{"Integer": true, "String": true, "Array": true, "Hash": true, "Tuple": true, "Struct": true,
@@ -186,7 +215,7 @@ func scalarKeys(e sx.Sexp) bool {
 				return false
 			}
 		}
-	case "d":
+	case "d", "dt":
 		for _, k := range e.Args()[1:] {
 			if !scalarKeys(k) {
 				return false
@@ -489,9 +518,6 @@ func hasTag(e sx.Sexp, tag string) bool {
 }
 
 func execRes(c px.Context, args []sx.Sexp, implOnly bool) core.Result {
-	if len(args) >= 1 && hasTypeParams(args[0]) != implOnly {
-		return core.Result{Out: "bad-op", Pred: "FAIL harness-bad-op res: a DeferredType with parameters belongs to op resp, and only there"}
-	}
 	if len(args) < 2 || !isRVal(args[0]) {
 		return core.Result{Out: "bad-op", Pred: "FAIL harness-bad-op res"}
 	}
@@ -502,7 +528,7 @@ func execRes(c px.Context, args []sx.Sexp, implOnly bool) core.Result {
 	}
 	ok := inDomain(args[0], implOnly)
 	for _, s := range args[1:] {
-		ok = ok && isScope(s) && inDomain(s, false) && !hasTypeParams(s)
+		ok = ok && isScope(s) && inDomain(s, false)
 	}
 	if !ok {
 		return core.Result{Out: "~", Pred: "n/a", Tags: []string{"res-outside"}}
@@ -657,7 +683,16 @@ func resDeferreds() []sx.Sexp {
 		dv("$v", dv("$v", k)), dv("$v", dv("verif_list", k)), dv("verif_list", k, iv(1)), dv("verif_list", dv("$v", k), dtv("Integer")),
 		dv("verif_list"), dv("$v", dtv("String")), dv("$missing", k), dv("nofunc", k), dv("verif_list", dv("nofunc")),
 		dv("$v", sx.T("u"), k), dv("verif_list", av(k), hv(kv(sv("x"), k), kv(k, iv(1)))),
+		// DeferredTypes with parameters (resolveValue: the EMPTY scope; ResolveWithParams), alone and as arguments
+		dtp("Array", dtv("Integer")), dtp("Tuple", dtv("String"), firstOf(dtp("Optional", dtv("Any"))), dtp("Type", dtv("Nope"))),
+		dtp("Type", k), dtp("NotUndef", firstOf(dv("nofunc"))), dv("verif_list", dtp("Optional", dtp("Array", dtv("Boolean"))), k),
+		dv("$v", dv("verif_first", k, dtp("Array", dtv("Any")))),
 	}
+}
+
+func firstOf(x sx.Sexp) sx.Sexp { return dv("verif_first", x) }
+func dtp(name string, ps ...sx.Sexp) sx.Sexp {
+	return sx.T("dt", append([]sx.Sexp{sx.Str(name)}, ps...)...)
 }
 
 func genRes(g *core.G) {
@@ -692,8 +727,7 @@ func genRes(g *core.G) {
 	}
 	// DeferredType WITH parameters (implementation only: `resolveValue` / `ResolveWithParams` are outside the model):
 	// parameters that hold Deferred calls and nested DeferredTypes, inside lists and maps, resolved twice
-	first := func(x sx.Sexp) sx.Sexp { return dv("verif_first", x) }
-	dtp := func(name string, ps ...sx.Sexp) sx.Sexp { return sx.T("dt", append([]sx.Sexp{sx.Str(name)}, ps...)...) }
+	first := firstOf
 	tps := []sx.Sexp{
 		dtp("Integer", iv(1), iv(5)), dtp("Integer", first(iv(1)), iv(5)), dtp("Array", dtv("Integer")),
 		dtp("Array", dtp("Integer", first(iv(0)), first(iv(9))), iv(1), first(iv(3))),
@@ -731,6 +765,9 @@ func randRVal(r *rand.Rand, depth int, top bool) sx.Sexp {
 	case k < 6:
 		if r.Intn(3) == 0 {
 			return sx.T("u")
+		}
+		if r.Intn(3) == 0 {
+			return randParamType(r, 2)
 		}
 		return dtv([]string{"Integer", "String", "Any", "Boolean", "Nope"}[r.Intn(5)])
 	case depth <= 0:
@@ -773,6 +810,33 @@ func randRVal(r *rand.Rand, depth int, top bool) sx.Sexp {
 		}
 	}
 	return dv(name, xs...)
+}
+
+// randParamType: a DeferredType of the modelled family; parameters mostly resolve to types, sometimes raise
+func randParamType(r *rand.Rand, depth int) sx.Sexp {
+	if depth <= 0 || r.Intn(3) == 0 {
+		return dtv([]string{"Integer", "String", "Any", "Boolean", "Nope"}[r.Intn(5)])
+	}
+	param := func() sx.Sexp {
+		switch r.Intn(8) {
+		case 0:
+			return firstOf(randParamType(r, depth-1))
+		case 1:
+			if r.Intn(2) == 0 {
+				return dv("$k")
+			}
+			return dv("nofunc", iv(1))
+		}
+		return randParamType(r, depth-1)
+	}
+	if r.Intn(3) == 0 {
+		ps := make([]sx.Sexp, 1+r.Intn(3))
+		for i := range ps {
+			ps[i] = param()
+		}
+		return dtp("Tuple", ps...)
+	}
+	return dtp([]string{"Array", "Optional", "Type", "NotUndef"}[r.Intn(4)], param())
 }
 
 func randScopeVal(r *rand.Rand, depth int) sx.Sexp {
